@@ -244,8 +244,10 @@ impl ToZinc for Uri {
             match c {
                 '`' => writer.write_all(br"\`")?,
                 '\\' => writer.write_all(br"\\")?,
-                '\x20'..='\x7e' => writer.write_all(&[c as u8])?,
-                _ => writer.write_fmt(format_args!("\\u{:04x}", c as u32))?,
+                _ => {
+                    let mut buf = [0; 4];
+                    writer.write_all(c.encode_utf8(&mut buf).as_bytes())?
+                }
             }
         }
         writer.write_all(b"`")?;
